@@ -28,7 +28,7 @@ import (
 
 func TestMain(m *testing.M) { drv.Main(m) }
 
-const rule = "state machine on the real application: 1-2 balancer pools (2 assets, and 3 assets whose denoms share prefixes aaa/bbb/bbb2; reserves 5..2e4 units in a third of the assets, else 1e6..1e12; all-asset joins and exits, whose per-asset rounding moves the price of a small pool, and single-asset joins) and optionally one concentrated pool that is created empty or funded, drained (every position withdrawn: no spot price) and refilled, blocks with irregular spacing (1 ms .. days; in half of the cases with nanosecond parts, as real block times have, and queries at nanosecond offsets - the reference weights each segment by the difference of the millisecond-floored timestamps, the module's canonical time), price-moving swaps / joins / exits in some blocks and idle blocks, the twap module's EndBlock after every block (transient changed-pool set cleared as a commit would), pruning passes (twap epoch hook + EndBlock batches run to completion) and queries: every ordered pair of a pool, start/end on, between, before and after record times, ...ToNow variants; oracle: the harness records the end-of-block spot price it obtains itself from the pool manager after every block; arithmetic TWAP == trunc18(sum p_i dt_i / dt) exactly; geometric TWAP == 2^(sum log2(p_i) dt_i / dt) over the recorded prices of asset 0 in asset 1 - the one series the module accumulates - and its reciprocal for the other direction, within relative 3e-7 plus 2e-18 (8-significant-figure rounding of the result, 18-decimal grid); an interval of zero canonical length returns the spot price of the last record at or before its end; both within [min,max] of the prices in force; the two geometric quote directions multiply to 1 within 4e-7; a start before the first record fails cleanly; an interval in which a drained pool's missing price is in force must return an error flag (intervals touching only the creation block of a pool funded in that block may or may not be flagged); answers for intervals inside the retention window are identical before and after a complete pruning pass; non-trivial = interval spans >= 2 records with different prices and does not start on a record; distinct by history+query hash"
+const rule = "state machine on the real application: a 3-asset balancer pool and optionally a second pool that is a balancer or a stableswap pool (2-3 assets, generated scaling factors); balancer pools (2 assets, and 3 assets whose denoms share prefixes aaa/bbb/bbb2; reserves 5..2e4 units in a third of the assets, else 1e6..1e12; all-asset joins and exits, whose per-asset rounding moves the price of a small pool, and single-asset joins) and optionally one concentrated pool that is created empty or funded, drained (every position withdrawn: no spot price) and refilled, blocks with irregular spacing (1 ms .. days; in half of the cases with nanosecond parts, as real block times have, and queries at nanosecond offsets - the reference weights each segment by the difference of the millisecond-floored timestamps, the module's canonical time), price-moving swaps / joins / exits in some blocks and idle blocks, the twap module's EndBlock after every block (transient changed-pool set cleared as a commit would), pruning passes (twap epoch hook + EndBlock batches run to completion) and queries: every ordered pair of a pool, start/end on, between, before and after record times, ...ToNow variants; oracle: the harness records the end-of-block spot price it obtains itself from the pool manager after every block; arithmetic TWAP == trunc18(sum p_i dt_i / dt) exactly; geometric TWAP == 2^(sum log2(p_i) dt_i / dt) over the recorded prices of asset 0 in asset 1 - the one series the module accumulates - and its reciprocal for the other direction, within relative 3e-7 plus 2e-18 (8-significant-figure rounding of the result, 18-decimal grid); an interval of zero canonical length returns the spot price of the last record at or before its end; both within [min,max] of the prices in force; the two geometric quote directions multiply to 1 within 4e-7; a start before the first record fails cleanly; an interval in which a drained pool's missing price is in force must return an error flag (intervals touching only the creation block of a pool funded in that block may or may not be flagged); answers for intervals inside the retention window are identical before and after a complete pruning pass; non-trivial = interval spans >= 2 records with different prices and does not start on a record; distinct by history+query hash"
 
 type obs struct {
 	t time.Time
